@@ -19,6 +19,9 @@ import (
 var ConnectionTimeout = 5 * time.Minute          // ConnectionTimeout specifies that connections will timeout 2 minutes after we've seen the last contact from the user
 var OldConnectionTimeout = 6 * ConnectionTimeout // Old connections will also timeout after a certain time
 
+// MaxDownstreamFragmentSize is the largest downstream fragment a client may ask for: a DNS message can't be longer
+const MaxDownstreamFragmentSize = 0xFFFF
+
 // ServerDnsListener will simulate connections over a DNS server request/response loop
 type ServerDnsListener struct {
 	Communicator      ServerCommunicator   // Communictor does IO. This allows us to abstract away the connection logic
@@ -307,6 +310,9 @@ func (s *ServerDnsListener) setOptionsRequest(v *commands.SetOptionsRequest, m *
 	} else if v.Closed != nil && *v.Closed == true {
 		log.Debugf("Client-initiated closing of the connection.")
 		_ = s.closeConnection(user)
+	} else if v.DownstreamFragmentSize != nil && (*v.DownstreamFragmentSize == 0 || *v.DownstreamFragmentSize > MaxDownstreamFragmentSize) {
+		// A fragment size of 0 would never drain a write; one above the limit can't be sent
+		resp.Err = commands.BadFrag
 	} else {
 		logString := "SetOptions(user=#%d"
 		logData := make([]interface{}, 0)
@@ -347,6 +353,8 @@ func (s *ServerDnsListener) testDownstreamFragmentSize(v *commands.TestDownstrea
 	u, err := s.validateAndGetUser(v.UserId, remoteAddr)
 	if err != nil {
 		resp.Err = err
+	} else if v.FragmentSize > MaxDownstreamFragmentSize {
+		resp.Err = commands.BadFrag
 	} else {
 		resp.Data = make([]byte, v.FragmentSize)
 		v := byte(107)
